@@ -467,9 +467,9 @@ fn apply_inner(
                 // We do not support clipping on feOffset.
                 region.translate_to(0, 0)
             } else {
-                subregion.translate(-region.x(), -region.y())
+                translate_checked(subregion, region)
             }
-            .unwrap();
+            .ok_or(Error::InvalidRegion)?;
 
             let color_space = result.color_space;
 
@@ -523,6 +523,13 @@ fn apply_inner(
     } else {
         Err(Error::NoResults)
     }
+}
+
+/// `r` relative to the top-left corner of `origin`; `None` when it does not fit into `i32`.
+fn translate_checked(r: IntRect, origin: IntRect) -> Option<IntRect> {
+    let x = i32::try_from(r.x() as i64 - origin.x() as i64).ok()?;
+    let y = i32::try_from(r.y() as i64 - origin.y() as i64).ok()?;
+    IntRect::from_xywh(x, y, r.width(), r.height())
 }
 
 fn get_input(
@@ -846,7 +853,7 @@ fn apply_flood(fe: &usvg::filter::Flood, region: IntRect) -> Result<Image, Error
 }
 
 fn apply_tile(input: Image, region: IntRect) -> Result<Image, Error> {
-    let subregion = input.region.translate(-region.x(), -region.y()).unwrap();
+    let subregion = translate_checked(input.region, region).ok_or(Error::InvalidRegion)?;
 
     let tile_pixmap = input.image.copy_region(subregion)?;
     let mut paint = tiny_skia::Paint::default();
